@@ -115,7 +115,8 @@ impl Iterator for FaultyPairs {
 
 pub struct FaultyIter {
     pub inner: std::vec::IntoIter<E>,
-    /// size_hint shape: 0 exact, 1 unknown, 2 loose upper bound, 3 exact lower bound without upper
+    /// size_hint shape: 0 exact, 1 unknown, 2 loose upper bound, 3 exact lower bound without upper,
+    /// 4 = unknown hint AND not fused: polled again after its first `None` it produces a poison element
     pub hint: usize,
     pub slack: usize,
 }
@@ -125,7 +126,16 @@ impl Iterator for FaultyIter {
         if fault_point(FaultKind::IterNext) {
             panic!("injected fault: iterator next");
         }
-        self.inner.next()
+        match self.inner.next() {
+            Some(e) => Some(e),
+            None if self.hint == 4 && self.slack != usize::MAX => {
+                // first None; a consumer that polls again gets a poison element (a protocol violation of the consumer)
+                self.slack = usize::MAX;
+                None
+            }
+            None if self.hint == 4 => Some(E::with_tag(ledger::TAG_GARB - 1)),
+            None => None,
+        }
     }
     fn size_hint(&self) -> (usize, Option<usize>) {
         let m = self.inner.len();
@@ -511,17 +521,17 @@ pub fn apply<const N: usize>(
             tr.push(Obs::Str(format!("{:?}", d)));
             m(|| drop(d));
         }
-        IterDebug(kind, s) => match kind {
+        IterDebug(kind, s) => match kind % 4 {
             0 => {
                 let mut it = m(|| sut.bref().iter());
                 run_script(&mut it, s, tr, |e: &E| tag_of(e.0));
-                tr.push(Obs::Str(format!("{:?}", it)));
+                tr.push(Obs::Str(model::fmt_with(&it, kind / 4)));
             }
             1 => {
                 let b = sut.b.as_mut().unwrap();
                 let mut it = m(|| b.iter_mut());
                 run_script(&mut it, s, tr, |e: &mut E| tag_of(e.0));
-                tr.push(Obs::Str(format!("{:?}", it)));
+                tr.push(Obs::Str(model::fmt_with(&it, kind / 4)));
             }
             _ => {
                 let b: Cb<N> = *sut.b.take().unwrap();
@@ -531,7 +541,7 @@ pub fn apply<const N: usize>(
                     hold.elems.push(e);
                     t
                 });
-                tr.push(Obs::Str(format!("{:?}", it)));
+                tr.push(Obs::Str(model::fmt_with(&it, kind / 4)));
                 m(|| drop(it));
             }
         },
